@@ -94,6 +94,11 @@ std::string entity_iter_protocol(const char *name, It begin, It end, It viter, R
     for (size_t i = 0; i < live.size(); ++i) { e.push_back((*it).idx()); ++it; }
     if (e != live) { o << name << " forward after backward yields " << vec_str(e) << ", expected " << vec_str(live); return o.str(); }
     if ((*it).idx() != n_slots) { o << name << " ++ from the last live element lands on handle " << (*it).idx() << ", end() is " << n_slots; return o.str(); }
+    // backward valid()-loop from the last live element: descending live handles, then invalid
+    It bk(begin.mesh(), Handle(live.back()));
+    std::vector<int> f;
+    while (bk.valid() && f.size() <= live.size() + 2) { f.push_back((*bk).idx()); --bk; }
+    if (f != rev) { o << name << " backward valid()-loop from the last live element yields " << vec_str(f) << ", expected " << vec_str(rev); return o.str(); }
   } else {
     if (begin != end) { o << name << ": begin != end on a mesh without live entities of this kind"; return o.str(); }
     if (viter.valid()) { o << name << ": iterator valid on a mesh without live entities of this kind"; return o.str(); }
